@@ -135,11 +135,11 @@ func checkReply(c reqCase, out []byte, panicked bool) (labels []string, err erro
 			if !bytes.Equal(out, want) {
 				return labels, fmt.Errorf("handler response not forwarded byte for byte: sent %x, handler returned %x (request %x)", out, want, f)
 			}
-		case "typed-error":
+		case "typed-error", "mutate-typed-error":
 			if !bytes.Equal(out, exception(f, c.Code)) {
 				return labels, fmt.Errorf("handler returned a typed error with code %d: reply %x, want %x", c.Code, out, exception(f, c.Code))
 			}
-		case "generic-error", "client-exception", "client-exception-wrapped":
+		case "generic-error", "client-exception", "client-exception-wrapped", "mutate-error":
 			// (addressing to the request - transaction id, unit id, function code - was checked above for every reply)
 			if !isExc {
 				return labels, fmt.Errorf("handler returned an error (%s): reply %x is not an exception", c.Handler, out)
@@ -423,7 +423,7 @@ func genReq(t *rapid.T, level string) reqCase {
 	c.Handler = "device"
 	switch c.Class {
 	case "valid":
-		c.Handler = rapid.SampledFrom([]string{"device", "typed-error", "typed-error", "generic-error", "panic", "client-exception", "client-exception-wrapped"}).Draw(t, "handler")
+		c.Handler = rapid.SampledFrom([]string{"device", "typed-error", "typed-error", "generic-error", "panic", "client-exception", "client-exception-wrapped", "mutate-error", "mutate-typed-error"}).Draw(t, "handler")
 		c.Code = rapid.SampledFrom([]uint8{1, 2, 3, 4, 5, 6, 8, 10, 11}).Draw(t, "code")
 		c.Frame = spec.EncodeRequest(spec.TCP, gen.LegalReq(t, gen.FC(t), rapid.Bool().Draw(t, "fits")))
 	case "unsupported":
